@@ -2,10 +2,11 @@ package main
 
 import (
 	"fmt"
+	"time"
 	"os"
 	"go/types"
 	"math/big"
-	"strings"
+		"strings"
 
 	"golang.org/x/tools/go/ssa"
 )
@@ -24,15 +25,30 @@ func (e *Engine) recordNondet(st *State, name, kind string, t *Term, many []*Ter
 	st.nondet = append(st.nondet, NondetRec{Name: name, Kind: kind, Term: t, Many: many, Shape: shape})
 }
 
+func (e *Engine) pinNext(name string) uint64 {
+	if e.pinCursor == nil {
+		e.pinCursor = map[string]int{}
+	}
+	i := e.pinCursor[name]
+	e.pinCursor[name] = i + 1
+	if vs := e.pinned[name]; i < len(vs) {
+		return vs[i]
+	}
+	return 0
+}
+
 func (e *Engine) opaqueErr(tag string) Value {
 	return IfaceV{T: opaqueType, V: OpaqueV{"err:" + tag}}
 }
 
 func init() {
-	api := "github.com/alephium/wormhole-fork/node/pkg/zzverif."
+	api := "zzverif."
 	scalar := func(w int) Handler {
 		return func(e *Engine, st *State, fn *ssa.Function, args []Value, retTo *ssa.Call) (Value, bool) {
 			name := strArg(args[0])
+			if e.pinned != nil {
+				return ConstU(e.pinNext(name), w), true
+			}
 			t := st.fresh(name, BV(w))
 			e.recordNondet(st, name, fmt.Sprintf("u%d", w), t, nil, 0)
 			return t, true
@@ -46,6 +62,9 @@ func init() {
 	exact[api+"I32"] = scalar(32)
 	exact[api+"Bool"] = func(e *Engine, st *State, fn *ssa.Function, args []Value, retTo *ssa.Call) (Value, bool) {
 		name := strArg(args[0])
+		if e.pinned != nil {
+			return ConstBool(e.pinNext(name) != 0), true
+		}
 		t := st.fresh(name, BoolSort)
 		e.recordNondet(st, name, "bool", t, nil, 0)
 		return t, true
@@ -59,6 +78,19 @@ func init() {
 		}
 		n := int(nT.Int64())
 		bs := make([]*Term, n)
+		if e.pinned != nil {
+			k := e.pinCursor[name+"[]"]
+			e.pinCursor[name+"[]"] = k + 1
+			vs := e.pinned[fmt.Sprintf("%s[]#%d", name, k)]
+			for i := range bs {
+				var v uint64
+				if i < len(vs) {
+					v = vs[i]
+				}
+				bs[i] = ConstU(v, 8)
+			}
+			return st.newByteSlice(bs), true
+		}
 		base := st.fresh(name, BV(8)) // reserve the name; individual bytes are name[i]
 		_ = base
 		for i := range bs {
@@ -73,6 +105,21 @@ func init() {
 		var vals []int
 		for i := 0; i < opts.Len; i++ {
 			vals = append(vals, int(st.sliceGet(opts, i).(*Term).Int64()))
+		}
+		if e.pinned != nil {
+			if vs, ok := e.pinned[name]; ok && e.pinCursor[name] < len(vs) {
+				return ConstU(e.pinNext(name), 64), true
+			}
+			return ConstU(uint64(vals[0]), 64), true
+		}
+		if r, ok := restrict[name]; ok {
+			var keep []int
+			for _, v := range vals {
+				if r[v] {
+					keep = append(keep, v)
+				}
+			}
+			vals = keep
 		}
 		if len(vals) == 0 {
 			st.status = Infeasible
@@ -191,37 +238,38 @@ func (e *Engine) keccak(st *State, in []*Term) []*Term {
 }
 
 func (e *Engine) reportViolation(st *State, label, detail string, stack []string) {
-	// model for current pc
-	var model map[string]*big.Int
-	if r := e.solver.Check(st.pc); r == Sat {
-		model = e.solver.Values(TS.vars)
-		e.solver.Pop()
-	}
-	e.violations = append(e.violations, &Violation{Label: label, State: st, Model: model, Detail: detail, Stack: stack})
+	e.classify(st, True, label, detail, stack)
 }
 
 func (e *Engine) assert(st *State, c *Term, label string) {
 	e.stats.asserts++
 	if c.IsTrue() {
-		e.stats.assertUnsat++
+		e.stats.assertTrivial++
 		return
 	}
-	r := e.solver.Check(append(sliceFor(st.pc, c), Not(c)))
+	t0 := time.Now()
+	q := append(sliceFor(st.pc, c), Not(c))
+	r := e.solver.Check(q)
+	ms := float64(time.Since(t0).Microseconds()) / 1000
+	if r == Sat {
+		e.solver.Pop()
+	}
+	e.sample(st, label, r.String(), ms)
+	e.crossCheck(q, r, label)
 	switch r {
 	case Unsat:
 		e.stats.assertUnsat++
 	case Sat:
-		e.solver.Pop()
-		// full (unsliced) query for a complete model
-		if e.solver.Check(append(append([]*Term(nil), st.pc...), Not(c))) != Sat {
+		// full (unsliced) query must agree before anything is reported
+		full := append(append([]*Term(nil), st.pc...), Not(c))
+		if rr := e.solver.Check(full); rr != Sat {
 			e.unsupported["sliced sat but full query not sat on assert "+label]++
 			st.assume(c)
 			return
 		}
-		e.stats.assertSat++
-		model := e.solver.Values(TS.vars)
 		e.solver.Pop()
-		e.violations = append(e.violations, &Violation{Label: label, State: st.clone(), Model: model, Stack: st.stack()})
+		e.stats.assertSat++
+		e.classify(st, Not(c), label, "", st.stack())
 		// continue under the assumption that the assertion held, if possible
 		if !e.feasible(st, c) {
 			st.status = Violated
@@ -232,6 +280,50 @@ func (e *Engine) assert(st *State, c *Term, label string) {
 	default:
 		e.unsupported["solver unknown on assert "+label]++
 		st.assume(c)
+	}
+}
+
+func (e *Engine) sample(st *State, label, verdict string, ms float64) {
+	if len(e.samples) >= 8 && verdict != "sat" {
+		return
+	}
+	if len(e.samples) >= 40 {
+		return
+	}
+	shape := map[string]int{}
+	for _, nd := range st.nondet {
+		if nd.Kind == "shape" {
+			shape[nd.Name] = nd.Shape
+		}
+	}
+	e.samples = append(e.samples, Sample{Entry: e.entryName, Shape: shape, Label: label, Verdict: verdict, Ms: ms, PCSize: len(st.pc)})
+}
+
+// crossCheck re-decides an assertion query on a second solver (z3 5.x, fresh context per query).
+func (e *Engine) crossCheck(q []*Term, primary Result, label string) {
+	if e.crossBudget == 0 || primary == Unknown {
+		return
+	}
+	if e.crossBudget > 0 {
+		e.crossBudget--
+	}
+	if e.second == nil {
+		s, err := newSolverMode("z3-new", 20000, false)
+		if err != nil {
+			return
+		}
+		e.second = s
+	}
+	r := e.second.Check(q)
+	e.cross.Checked++
+	switch {
+	case r == Unknown:
+		e.cross.Unknown++
+	case r == primary:
+		e.cross.Agree++
+	default:
+		e.cross.Disagree++
+		e.unsupported["solver-disagreement on assert "+label+": primary="+primary.String()+" second="+r.String()]++
 	}
 }
 
